@@ -9,10 +9,13 @@
      transport m tape                 : tape' j = tape i for the first i with m[i] = Some j
      input_sigs nodes                 : (operation, annotations, type) of the Input nodes, in order
      keeps nodes out m                : every mapped node keeps operation, annotations and type
-   What is not proved is kept visible as C06_meta_sem_full and C06_optimize_sem_full. *)
+   The first-round full statements C06_meta_sem_full / C06_optimize_sem_full are kept visible; they
+   are proved, with the typing hypotheses they really need, as C06_meta_sem / C06_optimize_sem in
+   section H at the end of this file. *)
 From CC Require Import Base.Prelude Base.Scalar Base.Ty Base.Shape Graph.Value Graph.IR Graph.Eval Model.Opt
   Proofs.OptBase Proofs.OptSem Proofs.OptSim Proofs.OptFresh Proofs.OptDangling Proofs.OptDup
-  Proofs.OptConst Proofs.OptMeta Proofs.OptMetaSem Proofs.OptPipe Proofs.OptProofs.
+  Proofs.OptConst Proofs.OptMeta Proofs.EvalProofs Proofs.OptMetaSem Proofs.OptPipe Proofs.OptProofs
+  Proofs.OptMetaEval Proofs.OptMetaFull Proofs.OptPipeFull.
 
 (* the chained mapping only relates nodes that every pass still maps *)
 Theorem C06_join_maps_length : forall m1 m2, length (join_maps m1 m2) = length m1.
@@ -184,8 +187,11 @@ Theorem C06_meta_sem_partial : forall nodes o p tape vals,
                            nth_error (po_map p) (Z.to_nat x) = Some (po_output p)).
 Proof. exact meta_sem_transport. Qed.
 
-(* NOT proved: the same without the restriction `simple_meta` (VectorGet of Zip and of
-   ArrayToVector, which create Get / GetSlice / CreateTuple nodes). *)
+(* The same without the restriction `simple_meta` (VectorGet of Zip and of ArrayToVector, which
+   create Get / GetSlice / CreateTuple nodes).  As written here the statement lacks two hypotheses
+   it needs (few_deps, and the builder's types of Zip / ArrayToVector nodes, zip_a2v_typed: with an
+   ill-typed Zip node the CreateTuple created for VectorGet (Zip ..) i has another type than the
+   VectorGet it replaces); with them it is PROVED below as C06_meta_sem (section H). *)
 Definition C06_meta_sem_full : Prop := forall nodes o p tape vals,
   const_typed nodes -> meta_typed nodes -> vals_typed nodes vals ->
   opt_meta nodes o = Ok p ->
@@ -467,3 +473,358 @@ Print Assumptions C06_optimize_sem_partial_simple.
 Print Assumptions C06_const_preserves_hyps.
 Print Assumptions C06_optimize_annots_partial.
 Print Assumptions C06_meta_annots_partial.
+
+(* ================================================================ H: every proxy *)
+(* The two evaluator facts behind the rewrites of the meta pass that CREATE nodes. *)
+(* VectorGet (ArrayToVector a) i, i.e. entry i of the vector of rows of a, is what Get a [i]
+   (rank 1) resp. GetSlice a [i, ...] (rank > 1) evaluates to (row_op / elem_ty: the operation and
+   the type meta_operation_optimizer.rs:283 gives the new node) *)
+Theorem C06_a2v_row : forall d rest st t va ws idx w,
+  valid_shape (d :: rest) ->
+  eval_node OArrayToVector [TArray (d :: rest) st] t [va] = Ok (VTup ws) ->
+  0 <= idx < d -> znth ws idx = Ok w ->
+  eval_node (row_op rest idx) [TArray (d :: rest) st] (elem_ty rest st) [va] = Ok w.
+Proof. exact a2v_row_sem. Qed.
+(* VectorGet (Zip vs) i is the tuple of the i-th entries of the operands, each of which exists *)
+Theorem C06_zip_row : forall dts t vs ws idx w,
+  eval_node OZip dts t vs = Ok (VTup ws) -> znth ws idx = Ok w ->
+  exists ls, mapM tup_of vs = Ok ls /\
+             w = VTup (map (fun l => nth (Z.to_nat idx) l (VArr [])) ls) /\
+             Forall (fun l => (Z.to_nat idx < length l)%nat) ls.
+Proof. exact zip_row_sem. Qed.
+
+(* Value preservation of the meta-operation pass for EVERY graph (ArrayToVector and Zip proxies
+   included; a VectorGet whose index is not a constant, or whose constant index is out of range
+   for a CreateVector, is left alone by the pass).  meta_hyps_full nodes:
+     const_typed    - a Constant carries its literal's type (the index proxy PNumber is read off
+                      the literal, the evaluator reads the node);
+     few_deps       - fewer than 2^64 dependencies per node (the evaluator reads the index modulo
+                      2^64, the pass uses the u64 itself);
+     meta_typed     - constructors, getters, A2B, B2A carry the builder's types (the replaced getter
+                      and the element replacing it must have the same type);
+     zip_a2v_typed  - Zip nodes have type Vector n (Tuple ets) over operands Vector n et_k, and
+                      ArrayToVector nodes have type Vector d (row type) over an array d :: rest
+                      with positive dimensions and d < 2^64 (needed: the new CreateTuple / Get /
+                      GetSlice node must get the type of the VectorGet it replaces; positive
+                      dimensions for the index arithmetic of GetSlice; d < 2^64 because the
+                      VectorGet being replaced reads its index modulo 2^64).
+   Well-typed values are needed only if the graph contains A2B / B2A (as before). *)
+Theorem C06_meta_sem : forall nodes o p tape vals,
+  meta_hyps_full nodes ->
+  (bits_ops nodes -> vals_typed nodes vals) ->
+  opt_meta nodes o = Ok p ->
+  eval_graph_nodes nodes tape = Ok vals ->
+  exists vals', eval_graph_nodes (po_nodes p) (transport (po_map p) tape) = Ok vals' /\
+                sim nodes (po_nodes p) vals vals' (po_map p) /\
+                (forall x, o = Some x -> 0 <= x < Z.of_nat (length nodes) ->
+                           nth_error (po_map p) (Z.to_nat x) = Some (po_output p)).
+Proof. exact meta_sem_transport_full. Qed.
+
+(* the hypothesis pass_sem_ok of C06_optimize_sem_partial, discharged: for every compatible tape *)
+Theorem C06_meta_sem_compat : forall nodes o p tape vals,
+  meta_hyps_full nodes ->
+  (bits_ops nodes -> vals_typed nodes vals) ->
+  opt_meta nodes o = Ok p ->
+  eval_graph_nodes nodes tape = Ok vals ->
+  forall tape', tape_compat from_tape nodes (po_map p) tape tape' ->
+  exists vals', eval_graph_nodes (po_nodes p) tape' = Ok vals' /\
+                sim nodes (po_nodes p) vals vals' (po_map p).
+Proof. exact meta_sem_compat_full. Qed.
+Theorem C06_meta_pass_sem_ok : forall nodes o p,
+  meta_hyps_full nodes -> ~ bits_ops nodes -> opt_meta nodes o = Ok p -> pass_sem_ok nodes p.
+Proof. exact meta_sem_ok_full. Qed.
+
+Theorem C06_meta_annots : forall nodes o p tape vals,
+  meta_hyps_full nodes -> (bits_ops nodes -> vals_typed nodes vals) ->
+  opt_meta nodes o = Ok p -> eval_graph_nodes nodes tape = Ok vals ->
+  forall i j, nth_error (po_map p) i = Some (Some j) ->
+    exists nd nd', nth_error nodes i = Some nd /\ 0 <= j /\ nth_error (po_nodes p) (Z.to_nat j) = Some nd' /\
+                   incl (n_annots nd) (n_annots nd').
+Proof. exact meta_annots_full. Qed.
+
+(* Zip / ArrayToVector typing, like every node-local typing predicate that holds of Constant
+   nodes, survives constant folding (so it is assumed of the input graph only) *)
+Theorem C06_const_preserves_local : forall (P : op -> list ty -> ty -> Prop) infer nodes o p,
+  const_typed nodes -> opt_const nodes o = Ok p ->
+  infer_const infer -> typed_nodes infer nodes ->
+  (forall T v dts t, P (OConstant T v) dts t) ->
+  local_typed P nodes -> local_typed P (po_nodes p).
+Proof. exact const_preserves_local. Qed.
+
+(* THE PIPELINE, hypotheses on the input graph and run only, no restriction on the operations
+   except nokey (no tape operation with a de-duplication key; see C06_optimize_sem_chain for the
+   statement without it): the graph is typed by an inference function infer that gives a Constant
+   its literal's type (infer_const) and gives the three kinds of node the meta pass creates the
+   builder's types (infer_meta: Get / GetSlice of a row, VectorGet, CreateTuple); Constants carry
+   their literal's type; nodes have fewer than 2^64 dependencies; constructors, getters, A2B, B2A,
+   Zip, ArrayToVector carry the builder's types; if the graph contains A2B / B2A the values of the
+   run are well typed.  Then the optimized graph evaluates under the tape transported stage by
+   stage, every node in the domain of the joined map keeps its value and type, and the new output
+   is the image of the old output and has its value. *)
+Theorem C06_optimize_sem : forall infer nodes o p tape vals,
+  infer_const infer -> infer_meta infer -> typed_nodes infer nodes ->
+  const_typed nodes -> few_deps nodes -> meta_typed nodes -> zip_a2v_typed nodes ->
+  optimize_graph nodes o = Ok p ->
+  eval_graph_nodes nodes tape = Ok vals ->
+  (bits_ops nodes -> vals_typed nodes vals) ->
+  nokey nodes ->
+  exists p1 p2 p3 p4,
+    opt_const nodes o = Ok p1 /\ opt_meta (po_nodes p1) (po_output p1) = Ok p2 /\
+    opt_dup (po_nodes p2) (po_output p2) = Ok p3 /\ opt_dangling (po_nodes p3) (po_output p3) = Ok p4 /\
+    exists vals', eval_graph_nodes (po_nodes p)
+                    (transport (po_map p4) (transport (po_map p3) (transport (po_map p2) (transport (po_map p1) tape))))
+                  = Ok vals' /\
+                  sim nodes (po_nodes p) vals vals' (po_map p) /\
+                  exists x j v, o = Some x /\ po_output p = Some j /\ 0 <= x /\ 0 <= j /\
+                                nth_error (po_map p) (Z.to_nat x) = Some (Some j) /\
+                                nth_error vals (Z.to_nat x) = Some v /\ nth_error vals' (Z.to_nat j) = Some v.
+Proof. exact optimize_sem_all_output. Qed.
+
+(* without nokey: for every chain of tapes compatible stage by stage after the constant stage
+   (merging two CuckooHash / Shard / Join / Sort nodes is meaningful under such tapes only) *)
+Theorem C06_optimize_sem_chain : forall infer nodes o p tape vals,
+  infer_const infer -> infer_meta infer -> typed_nodes infer nodes ->
+  const_typed nodes -> few_deps nodes -> meta_typed nodes -> zip_a2v_typed nodes ->
+  optimize_graph nodes o = Ok p ->
+  eval_graph_nodes nodes tape = Ok vals ->
+  (bits_ops nodes -> vals_typed nodes vals) ->
+  exists p1 p2 p3 p4,
+    opt_const nodes o = Ok p1 /\ opt_meta (po_nodes p1) (po_output p1) = Ok p2 /\
+    opt_dup (po_nodes p2) (po_output p2) = Ok p3 /\ opt_dangling (po_nodes p3) (po_output p3) = Ok p4 /\
+    forall t2 t3 t4,
+      tape_compat from_tape (po_nodes p1) (po_map p2) (transport (po_map p1) tape) t2 ->
+      tape_compat from_tape (po_nodes p2) (po_map p3) t2 t3 ->
+      tape_compat from_tape (po_nodes p3) (po_map p4) t3 t4 ->
+      exists vals', eval_graph_nodes (po_nodes p) t4 = Ok vals' /\
+                    sim nodes (po_nodes p) vals vals' (po_map p).
+Proof. exact optimize_sem_all_chain. Qed.
+
+(* annotations along the pipeline, same class of graphs: the image of every node in the domain
+   of the pipeline's map carries all annotations of the node *)
+Theorem C06_optimize_annots : forall infer nodes o p tape vals,
+  infer_const infer -> infer_meta infer -> typed_nodes infer nodes ->
+  const_typed nodes -> few_deps nodes -> meta_typed nodes -> zip_a2v_typed nodes ->
+  optimize_graph nodes o = Ok p ->
+  eval_graph_nodes nodes tape = Ok vals ->
+  (bits_ops nodes -> vals_typed nodes vals) ->
+  forall i j, nth_error (po_map p) i = Some (Some j) ->
+    exists nd nd', nth_error nodes i = Some nd /\ 0 <= j /\ nth_error (po_nodes p) (Z.to_nat j) = Some nd' /\
+                   incl (n_annots nd) (n_annots nd').
+Proof. exact optimize_annots_all. Qed.
+
+(* ---------------------------------------------------------------- non-vacuity, section H *)
+(* a graph with ArrayToVector and Zip proxies: nested Zip over two ArrayToVector (rank 1 and
+   rank 2) and a CreateVector, a VectorGet with a constant index through all of them (rewritten
+   to CreateTuple of Get / GetSlice / the vector element, then resolved by the TupleGets), and a
+   VectorGet with a non-constant index on a Zip (kept) *)
+Definition arr2 := TArray [2] U8.
+Definition pr := TTuple [t8; arr2].
+Definition ex_zip : list node :=
+  [inp (TArray [3] U8); inp (TArray [3;2] U8); inp t8; inp u64;
+   mkNode OArrayToVector [0] [] [] (TVector 3 t8);
+   mkNode OArrayToVector [1] [] [] (TVector 3 arr2);
+   mkNode (OCreateVector t8) [2;2;2] [] [] (TVector 3 t8);
+   mkNode OZip [4;5] [] [] (TVector 3 pr);
+   mkNode OZip [7;6] [] [] (TVector 3 (TTuple [pr; t8]));
+   mkNode (OConstant u64 (VArr [2])) [] [] [] u64;
+   mkNode OVectorGet [8;9] [] [] (TTuple [pr; t8]);
+   mkNode (OTupleGet 0) [10] [] [] pr;
+   mkNode (OTupleGet 1) [11] [] [APrivate] arr2;
+   mkNode (OTupleGet 0) [11] [] [] t8;
+   mkNode (OTupleGet 1) [10] [] [] t8;
+   mkNode OAdd [13;14] [] [] t8;
+   mkNode OVectorGet [7;3] [] [] pr;
+   mkNode OCreateTuple [12;15;16] [] [] (TTuple [arr2; t8; pr])].
+Definition ex_zip_tape := tape_of_list [(0, VArr [10;20;30]); (1, VArr [1;2;3;4;5;6]); (2, VArr [7]); (3, VArr [1])].
+
+(* the meta pass alone: the VectorGet through the nested Zip becomes nodes 10..14 (Get a [2],
+   GetSlice b [2, ...], CreateTuple, VectorGet of the CreateVector is its element c, CreateTuple),
+   the TupleGets resolve to them (the Private annotation moves to the GetSlice node) *)
+Example C06_ex_zip_meta :
+  match opt_meta ex_zip (Some 17) with
+  | Ok p =>
+      eqb (po_map p) [Some 0; Some 1; Some 2; Some 3; Some 4; Some 5; Some 6; Some 7; Some 8; Some 9;
+                      Some 14; Some 13; Some 12; Some 11; Some 2; Some 19; Some 20; Some 21]
+      && eqb (map n_op (firstn 5 (skipn 10 (po_nodes p))))
+             [OVectorGet; OGet [2]; OGetSlice [SSingle 2; SEllipsis]; OCreateTuple; OCreateTuple]
+      && match eval_graph_nodes ex_zip ex_zip_tape,
+               eval_graph_nodes (po_nodes p) (transport (po_map p) ex_zip_tape) with
+         | Ok vals, Ok vals' =>
+             (* every mapped node has the same value in both graphs *)
+             forallb (fun ij => match snd ij with
+                                | Some j => eqb (znth vals (fst ij)) (znth vals' j)
+                                | None => true end)
+                     (combine (zrange 18) (po_map p))
+             && eqb (znth vals 17) (Ok (VTup [VArr [5;6]; VArr [37]; VTup [VArr [20]; VArr [3;4]]]))
+         | _, _ => false
+         end
+  | _ => false
+  end = true.
+Proof. vm_compute. reflexivity. Qed.
+
+(* the whole pipeline on it, evaluated before and after under the tape transported stage by stage *)
+Example C06_ex_zip_optimize :
+  match opt_const ex_zip (Some 17) with
+  | Ok p1 =>
+    match opt_meta (po_nodes p1) (po_output p1) with
+    | Ok p2 =>
+      match opt_dup (po_nodes p2) (po_output p2) with
+      | Ok p3 =>
+        match opt_dangling (po_nodes p3) (po_output p3), optimize_graph ex_zip (Some 17) with
+        | Ok p4, Ok p =>
+            eqb (map n_op (po_nodes p))
+                [OInput (TArray [3] U8); OInput (TArray [3;2] U8); OInput t8; OInput u64;
+                 OArrayToVector; OArrayToVector; OZip; OGet [2]; OGetSlice [SSingle 2; SEllipsis];
+                 OAdd; OVectorGet; OCreateTuple]
+            && eqb (po_map p) [Some 0; Some 1; Some 2; Some 3; Some 4; Some 5; None; Some 6; None; None; None; None;
+                               Some 8; Some 7; Some 2; Some 9; Some 10; Some 11]
+            && eqb (po_output p) (Some 11)
+            && match eval_graph_nodes ex_zip ex_zip_tape,
+                     eval_graph_nodes (po_nodes p)
+                       (transport (po_map p4) (transport (po_map p3) (transport (po_map p2)
+                          (transport (po_map p1) ex_zip_tape)))) with
+               | Ok vals, Ok vals' =>
+                   forallb (fun ij => match snd ij with
+                                      | Some j => eqb (znth vals (fst ij)) (znth vals' j)
+                                      | None => true end)
+                           (combine (zrange 18) (po_map p))
+                   && eqb (znth vals' 11) (Ok (VTup [VArr [5;6]; VArr [37]; VTup [VArr [20]; VArr [3;4]]]))
+               | _, _ => false
+               end
+        | _, _ => false
+        end
+      | _ => false
+      end
+    | _ => false
+    end
+  | _ => false
+  end = true.
+Proof. vm_compute. reflexivity. Qed.
+
+(* when the rewrite does NOT apply: a constant index out of range for a CreateVector leaves the
+   VectorGet node as it is (the Rust returned the node unchanged since fix ccbd39a) *)
+Example C06_ex_vector_get_out_of_range :
+  opt_meta [inp t8; mkNode (OCreateVector t8) [0;0] [] [] (TVector 2 t8);
+            mkNode (OConstant u64 (VArr [5])) [] [] [] u64; mkNode OVectorGet [1;2] [] [] t8] (Some 3)
+  = Ok (mkPassOut [inp t8; mkNode (OCreateVector t8) [0;0] [] [] (TVector 2 t8);
+                   mkNode (OConstant u64 (VArr [5])) [] [] [] u64; mkNode OVectorGet [1;2] [] [] t8]
+                  [Some 0; Some 1; Some 2; Some 3] (Some 3)).
+Proof. vm_compute. reflexivity. Qed.
+
+(* the hypotheses of C06_optimize_sem are satisfiable by this graph *)
+Definition infer_zip (o : op) (dts : list ty) : ty :=
+  match o with
+  | OInput t | ORandom t | OConstant t _ => t
+  | OCreateTuple => TTuple dts
+  | OCreateVector t => TVector (Z.of_nat (length dts)) t
+  | OArrayToVector => match dts with [TArray (d :: rest) st] => TVector d (elem_ty rest st) | _ => t8 end
+  | OZip => match dts with
+            | TVector n _ :: _ => TVector n (TTuple (map (fun t => match t with TVector _ e => e | _ => t end) dts))
+            | _ => t8 end
+  | OVectorGet => match dts with TVector _ e :: _ => e | _ => t8 end
+  | OTupleGet i => match dts with [TTuple ts] => nth (Z.to_nat i) ts t8 | _ => t8 end
+  | OGet _ | OGetSlice _ => match dts with [TArray (_ :: rest) st] => elem_ty rest st | _ => t8 end
+  | OAdd => match dts with t :: _ => t | _ => t8 end
+  | _ => t8
+  end.
+Example C06_ex_zip_hyps :
+  infer_const infer_zip /\ infer_meta infer_zip /\ typed_nodes infer_zip ex_zip /\ const_typed ex_zip /\
+  few_deps ex_zip /\ meta_typed ex_zip /\ zip_a2v_typed ex_zip /\ nokey ex_zip /\ ~ bits_ops ex_zip.
+Proof.
+  split; [intros t v; reflexivity|]. split.
+  { split; [|split].
+    - intros d rest st idx _. destruct rest; reflexivity.
+    - reflexivity.
+    - reflexivity. }
+  split.
+  { intros i nd E.
+    do 18 (destruct i as [|i]; [injection E as <-; eexists; split; [cbv; reflexivity|reflexivity]|]).
+    destruct i; discriminate. }
+  split.
+  { intros nd t v I. repeat (destruct I as [<-|I]; [cbn; intros H; try discriminate; now injection H as <- _|]). destruct I. }
+  split.
+  { intros nd I. repeat (destruct I as [<-|I]; [vm_compute; reflexivity|]). destruct I. }
+  split.
+  { intros i nd dts E D.
+    do 18 (destruct i as [|i]; [injection E as <-; cbv in D; injection D as <-; cbn;
+                                first [exact I | reflexivity | (split; [reflexivity|repeat constructor])
+                                      | (eexists; split; reflexivity) | (do 2 eexists; reflexivity)]|]).
+    destruct i; discriminate. }
+  split.
+  { intros i nd dts E D.
+    do 18 (destruct i as [|i]; [injection E as <-; cbv in D; injection D as <-; cbn;
+                                first [exact I
+                                      | (exists 3, [t8; arr2]; split; reflexivity)
+                                      | (exists 3, [pr; t8]; split; reflexivity)
+                                      | (exists 3, [], U8; split; [reflexivity|split; [repeat constructor; lia|split; [lia|reflexivity]]])
+                                      | (exists 3, [2], U8; split; [reflexivity|split; [repeat constructor; lia|split; [lia|reflexivity]]])]|]).
+    destruct i; discriminate. }
+  split.
+  { intros nd I Ft. repeat (destruct I as [<-|I]; [try discriminate Ft; intros nd' deps E; unfold node_key; rewrite E; reflexivity|]). destruct I. }
+  { intros (nd & I & Ho). repeat (destruct I as [<-|I]; [destruct Ho as [Ho|(st & Ho)]; discriminate|]). destruct I. }
+Qed.
+
+(* hence the conclusion of C06_optimize_sem holds of it (an instance of the theorem, not a computation) *)
+Example C06_ex_zip_instance :
+  forall p vals, optimize_graph ex_zip (Some 17) = Ok p -> eval_graph_nodes ex_zip ex_zip_tape = Ok vals ->
+  exists vals' j v, sim ex_zip (po_nodes p) vals vals' (po_map p) /\ po_output p = Some j /\
+                    nth_error vals 17 = Some v /\ nth_error vals' (Z.to_nat j) = Some v.
+Proof.
+  intros p vals H V.
+  destruct C06_ex_zip_hyps as (Ic & Im & Tn & Ct & Fd & Mt & Zt & Nk & Nb).
+  destruct (C06_optimize_sem infer_zip ex_zip (Some 17) p ex_zip_tape vals Ic Im Tn Ct Fd Mt Zt H V
+              (fun B => False_ind _ (Nb B)) Nk)
+    as (p1 & p2 & p3 & p4 & _ & _ & _ & _ & vals' & _ & S & x & j & v & Ex & Ej & _ & _ & _ & Vx & Vj).
+  injection Ex as <-. exists vals', j, v. auto.
+Qed.
+
+(* why zip_a2v_typed was added: the first-round statement C06_meta_sem_full (const_typed, meta_typed,
+   vals_typed only) is FALSE of the model.  A Zip node may carry a type that its values inhabit but
+   that is not the builder's (VArr [1] inhabits both U8 and U16): the CreateTuple created for
+   VectorGet (Zip [v; v]) 0 is typed from the operands, (U8, U8), the VectorGet it replaces from
+   the Zip node, (U16, U8), and sim demands equal types.  (Not a finding about /repo: the graph
+   builder cannot produce such a Zip node.) *)
+Definition ex_bad_zip : list node :=
+  [inp (TVector 2 t8);
+   mkNode OZip [0;0] [] [] (TVector 2 (TTuple [TScalar U16; t8]));
+   mkNode (OConstant u64 (VArr [0])) [] [] [] u64;
+   mkNode OVectorGet [1;2] [] [] (TTuple [TScalar U16; t8])].
+Definition ex_bad_tape := tape_of_list [(0, VTup [VArr [1]; VArr [2]])].
+Definition ex_bad_vals : list value :=
+  [VTup [VArr [1]; VArr [2]]; VTup [VTup [VArr [1]; VArr [1]]; VTup [VArr [2]; VArr [2]]]; VArr [0];
+   VTup [VArr [1]; VArr [1]]].
+Definition ex_bad_out : pass_out :=
+  match opt_meta ex_bad_zip (Some 3) with Ok p => p | _ => mkPassOut [] [] None end.
+Theorem C06_meta_sem_full_refuted : ~ C06_meta_sem_full.
+Proof.
+  intros Hfull.
+  assert (Ct : const_typed ex_bad_zip).
+  { intros nd t v I. repeat (destruct I as [<-|I]; [cbn; intros H; try discriminate; now injection H as <- _|]). destruct I. }
+  assert (Mt : meta_typed ex_bad_zip).
+  { intros i nd dts E D.
+    do 4 (destruct i as [|i]; [injection E as <-; cbv in D; injection D as <-; cbn;
+                               first [exact I | (do 2 eexists; reflexivity)]|]).
+    destruct i; discriminate. }
+  assert (Vt : vals_typed ex_bad_zip ex_bad_vals).
+  { intros i nd v E1 E2.
+    do 4 (destruct i as [|i]; [injection E1 as <-; injection E2 as <-; vm_compute; reflexivity|]).
+    destruct i; discriminate. }
+  assert (Ho : opt_meta ex_bad_zip (Some 3) = Ok ex_bad_out) by (vm_compute; reflexivity).
+  assert (He : eval_graph_nodes ex_bad_zip ex_bad_tape = Ok ex_bad_vals) by (vm_compute; reflexivity).
+  destruct (Hfull _ _ _ _ _ Ct Mt Vt Ho He) as (vals' & _ & S).
+  assert (Em : nth_error (po_map ex_bad_out) 3 = Some (Some 6)) by (vm_compute; reflexivity).
+  destruct (S _ _ Em) as (_ & _ & (nd & nd' & N1 & N2 & N3)).
+  vm_compute in N1, N2. injection N1 as <-. injection N2 as <-. discriminate N3.
+Qed.
+
+Print Assumptions C06_a2v_row.
+Print Assumptions C06_zip_row.
+Print Assumptions C06_meta_sem.
+Print Assumptions C06_meta_sem_compat.
+Print Assumptions C06_meta_pass_sem_ok.
+Print Assumptions C06_meta_annots.
+Print Assumptions C06_const_preserves_local.
+Print Assumptions C06_optimize_sem.
+Print Assumptions C06_optimize_sem_chain.
+Print Assumptions C06_optimize_annots.
+Print Assumptions C06_meta_sem_full_refuted.
